@@ -8,6 +8,8 @@ def check(ctx):
     rep.floor("calls on the input reader under zinc::decode / filter", n1, 2)
     n2 = streams.check_iterator_is_eager(ctx, rep)
     rep.floor("eager-vs-lazy structure obligations", n2, 3)
+    from rules import escapes
+    escapes.check_cell_presence_only(ctx, rep)
     n3 = fields.check(ctx, rep, set(fields.ENC_TRAITS))
     rep.floor("encoder impls checked for field coverage", n3, 25)
     rep.assume("std::io::Read::read_exact retries ErrorKind::Interrupted and loops over short reads (documented contract)")
